@@ -294,3 +294,33 @@ def r03_7(ctx, rr):
             rr.ob(ok, key=key + str(ok), sample={"fn": b.key, "site": show(F, n)[:80], "established": known})
             if not ok:
                 rr.violate(key, "%s takes a bit position from `%s` (`%s`) without `!= 0` established on every path (established: %s): an empty word yields position 64" % (b.key, t, show(F, n)[:80], "; ".join(known) or "nothing"), F.loc(n))
+
+
+@rule("R03.8", props=["C03", "C05", "C09", "C18"], floor=4, title="every exact-size iterator reports `total - cursor`, where cursor is the field its next() advances by one")
+def r03_8(ctx, rr):
+    F = ctx.F()
+    lens = [b for b in F.fns() if b.name == "len" and (b.impl_trait or "").endswith(("ExactSizeIterator", "ExactSizeLender"))]
+    if len(lens) < 4:
+        raise AnchorMissing("expected at least 4 ExactSizeIterator/ExactSizeLender impls, found %d" % len(lens))
+    for lb in lens:
+        # the matching next(): same impl self type
+        nexts = [b for b in F.fns() if b.name == "next" and b.impl_self == lb.impl_self and (b.impl_trait or "").endswith(("Iterator", "Lender"))]
+        if not nexts:
+            continue
+        nb = nexts[0]
+        cursors = set()
+        for n in walk(nb.body):
+            if n.get("k") == "AssignOp" and n["op"] == "+=" and n["l"].get("k") == "Field" and n["l"]["e"].get("k") == "Path" and n["l"]["e"].get("name") == "self" and n["r"].get("v") == "1":
+                cursors.add(n["l"]["name"])
+        s = ("var", "self", lb.params[0]["id"])
+        t = Termizer(F, lb).term(lb.body)
+        rr.instances += 1
+        key = "%s:total-minus-cursor" % short_fn(lb.key)
+        if t[0] == "call" and t[1].endswith("::len") and t[2] and t[2][0][0] == "field":
+            # forwards to an inner exact-size iterator
+            rr.ob(True, key=key, nontrivial=False)
+            continue
+        ok = t[0] == "op" and t[1] == "-" and t[3][0] == "field" and t[3][1] == s and t[3][2] in cursors
+        rr.ob(ok, key=key, sample={"fn": lb.key, "len": tshow(t), "cursor_fields_advanced_by_next": sorted(cursors)})
+        if not ok:
+            rr.violate(key, "%s must be `total - self.<cursor>` with the cursor that next() advances by one per item (%s); found %s" % (lb.key, sorted(cursors), tshow(t)), lb.span)
